@@ -22,7 +22,7 @@ theorem linkedlist_refines_deque (m : Mem) (c : List (Nat × Nat)) (op : LOp) (h
   body_refines m c op hr
 
 /-- the decorated trace of a run: observables plus a marker at every method body -/
-def decorated (es : List Ev) : List (LEv LOp LRes) := decorate model id linOf model.init es
+def decorated (es : List Ev) : List (LEv LOp LRes) := decorate model Obs.toH linOf model.init es
 
 /-- **`linkedlist_refines_deque` (C12), trace level.** For every run the decorated trace is accepted
 by the linearization checker of the deque specification — every method body is a linearization
@@ -32,7 +32,7 @@ list. -/
 theorem linkedlist_refines_deque_run (es : List Ev) (s : St) (h : model.run model.init es = some s) :
     ∃ ms c, (linMon dequeSpec).run (linMon dequeSpec).init (decorated es) = some ms ∧
       Rep s.mem c ∧ ms.st = c.map (·.2) := by
-  obtain ⟨ms, hm, hR⟩ := decorate_sim model dequeSpec id linOf Rel
+  obtain ⟨ms, hm, hR⟩ := decorate_sim model dequeSpec Obs.toH linOf Rel
     (fun s e s' ms hR hs => sim_step s e s' ms hR hs) es model.init _ s rel_init h
   obtain ⟨c, hc, hst⟩ := hR.rep
   exact ⟨ms, c, hm, hc, hst⟩
@@ -56,28 +56,27 @@ theorem head_tail_consistent (es : List Ev) (s : St) (h : model.run model.init e
 
 /-- **C12 (observable form).** Every observable trace of the model is a linearizable deque history. -/
 theorem linkedlist_linearizable (es : List Ev) (s : St) (h : model.run model.init es = some s) :
-    Linearizable dequeSpec (es.filterMap model.obs) := by
-  have := linearizable_of_sim model dequeSpec id linOf Rel rel_init
+    Linearizable dequeSpec ((es.filterMap model.obs).filterMap Obs.toH) :=
+  linearizable_of_sim model dequeSpec Obs.toH linOf Rel rel_init
     (fun s e s' ms hR hs => sim_step s e s' ms hR hs) es s h
-  simpa using this
 
 /-- **`lincheck_sound` (C12).** A history that the driver accepts (trace inclusion in this model,
 for any exploration bounds) is linearizable w.r.t. the sequential deque. -/
 theorem lincheck_sound (cap fuel : Nat) (h : List Obs) (ha : model.accepts cap fuel h = true) :
-    Linearizable dequeSpec h :=
-  accepted_satisfies model (Linearizable dequeSpec) (fun es s hr => linkedlist_linearizable es s hr)
-    cap fuel h ha
+    Linearizable dequeSpec (h.filterMap Obs.toH) :=
+  accepted_satisfies model (fun h => Linearizable dequeSpec (h.filterMap Obs.toH))
+    (fun es s hr => linkedlist_linearizable es s hr) cap fuel h ha
 
 /-- …in the classical sense (legal sequential history, every completed call with its result,
 real-time order respected). -/
 theorem lincheck_sound_textbook (cap fuel : Nat) (h : List Obs) (ha : model.accepts cap fuel h = true) :
-    TextbookLinearizable dequeSpec h :=
+    TextbookLinearizable dequeSpec (h.filterMap Obs.toH) :=
   linearizable_textbook dequeSpec _ (lincheck_sound cap fuel h ha)
 
 /-- **No method panics** (no dereference of a non-element). -/
 theorem no_panic (es : List Ev) (s : St) (h : model.run model.init es = some s) (t : Nat) (op : LOp) :
     s.th[t]? ≠ some (.done op .panic) ∧ s.th[t]? ≠ some (.retd op .panic) := by
-  obtain ⟨ms, _, hR⟩ := decorate_sim model dequeSpec id linOf Rel
+  obtain ⟨ms, _, hR⟩ := decorate_sim model dequeSpec Obs.toH linOf Rel
     (fun s e s' ms hR hs => sim_step s e s' ms hR hs) es model.init _ s rel_init h
   exact hR.nopanic t op
 
@@ -91,6 +90,18 @@ theorem abs_eq (es : List Ev) (s : St) (h : model.run model.init es = some s) :
     ∃ c, Rep s.mem c ∧ abs s = c.map (·.2) := by
   obtain ⟨_, c, _, hc, _⟩ := linkedlist_refines_deque_run es s h
   exact ⟨c, hc, abs_of_rep s.mem c hc⟩
+
+/-- **Every mutating method needs the write lock**: while the environment holds a read lock on
+`l.mtx`, only the bodies of the read-only methods can run. (This is what makes a mutating method
+downgraded to `RLock` visible to the correspondence check deterministically.) -/
+theorem mutator_excluded_by_reader (s s' : St) (t : Nat) (op : LOp) (hs : step s (.exec t) = some s')
+    (ht : s.th[t]? = some (.inv op)) (hr : 0 < s.envR) : op.readOnly = true := by
+  simp only [step, ht] at hs
+  split at hs
+  · rename_i h; rcases h with h | h
+    · omega
+    · exact h
+  · simp at hs
 
 /-- every enabled internal event is a candidate the driver tries -/
 theorem cands_complete (s s' : St) (e : Ev) (hs : step s e = some s') (ho : e.obs = none) :
@@ -128,7 +139,15 @@ example : ∃ s, model.run model.init
 
 /-- a non-linearizable history is rejected: Peek must not see an element pushed behind another -/
 example : model.accepts 1000 100
-    [.inv 0 (.push 1), .ret 0 .ack, .inv 1 (.push 2), .ret 1 .ack, .inv 2 .peek, .ret 2 (.val 2 true)] = false := by
+    [.call (.inv 0 (.push 1)), .call (.ret 0 .ack), .call (.inv 1 (.push 2)), .call (.ret 1 .ack),
+     .call (.inv 2 .peek), .call (.ret 2 (.val 2 true))] = false := by
   decide
+
+/-- a Push that returns while the environment holds a read lock is rejected; after the unlock it
+is accepted -/
+example : model.accepts 1000 100
+    [.envRLock, .call (.inv 0 (.push 1)), .call (.ret 0 .ack), .envRUnlock] = false := by decide
+example : model.accepts 1000 100
+    [.envRLock, .call (.inv 0 (.push 1)), .envRUnlock, .call (.ret 0 .ack)] = true := by decide
 
 end UtilModel.LinkedList
